@@ -1082,6 +1082,15 @@ pub fn rcx_event(sink: &Sink, r: &mut Rng) {
             let l = <Lmer<[u64; 6]> as Vmer>::from_slice(&s);
             out.push(json!({"ty":"Lmer6","rc":mer_bases(&l.rc()),"rcrc":mer_bases(&l.rc().rc()),"kmers_rc": with_kmer_v!(kk, kmers_of(&l.rc()))}));
         }
+        // windows of the reverse-complemented offset view: the window [a, b) of rc(s) is the rc of s[n-b, n-a)
+        let mut wins: Vec<Value> = Vec::new();
+        let mut rr = r.clone();
+        for _ in 0..4 {
+            let a = rr.range(0, n);
+            let b = rr.range(a, n);
+            wins.push(json!([a, b, so.slice(a, b).bytes(), so.slice(a, b).rc().bytes()]));
+        }
+        out.push(json!({"ty":"windows","rc":so.bytes(),"rcrc":so.rc().bytes(),"kmers_rc": with_kmer_v!(kk, kmers_of(&so)),"wins":wins}));
         let mut km = json!({});
         if ALL_K.contains(&n) {
             let (rcv, canon, flip, pal) = with_kmer!(n, kmer_rc(&s));
